@@ -60,6 +60,7 @@ def suite_fonts(ctx, res, n):
     fixed += [fontgen.make_shared_gradient_case(ctx.rng.getrandbits(32), f) for f in ("picosvg", "picosvgz")]
     fixed += [fontgen.make_use_override_case(ctx.rng.getrandbits(32), "picosvg")]
     # input order != glyph-name order, no outline shared between glyphs (every reuse group a single glyph) / one pair sharing
+    fixed += [fontgen.make_two_donor_case(sd, "picosvg") for sd in (0, 3, 4, 6)]
     # the same with coverage-based rules of the user's own in the feature file: the re-ordering must leave every Coverage table sorted
     fixed += [fontgen.make_layout_reorder_case(ctx.rng.getrandbits(32), f) for f in ("picosvg", "picosvgz", "picosvg")]
     fixed += [fontgen.make_unsorted_names_case(ctx.rng.getrandbits(32), f, share=sh) for f, sh in (("picosvg", False), ("picosvgz", False), ("picosvg", True), ("untouchedsvg", False))]
